@@ -43,6 +43,8 @@ type Atom struct {
 	Substs   []paramSubst    // parameter substitutions of the inlining chain (innermost first)
 	CtxOuter string          // condition context of the call site(s) through which this atom was inherited
 	Outer    *Atom           // the caller's atom through which this atom was inherited
+	ShapeP   string          // Shape with the function's parameters kept as ⟦$i|<type>⟧ tokens
+	ConjP    string          // Conj likewise
 }
 
 // Sig is the inventory signature (without strength).
@@ -70,21 +72,22 @@ func (a *Atom) Sig() string {
 
 // Unit is one analysed body: a declared function or a function literal inside one.
 type Unit struct {
-	Fn      *FuncDecl
-	Lit     *ast.FuncLit // nil for the declaration itself
-	Body    *ast.BlockStmt
-	Sig     *types.Signature
-	CFG     *cfg.CFG
-	Info    *types.Info
-	FR      map[*cfg.Block]bool // failure region
-	Exits   []*Exit
-	Atoms   []*Atom
-	idom    []int // immediate dominators (by block index), -1 for entry/unreachable
-	preds   map[*cfg.Block][]*cfg.Block
-	rdIn    map[*cfg.Block]defSet
-	nodeBlk map[ast.Node]*cfg.Block
-	prog    *Program
-	eng     *GuardEngine
+	leafMode bool // shapeOf keeps parameters as ⟦$i|<type>⟧ tokens
+	Fn       *FuncDecl
+	Lit      *ast.FuncLit // nil for the declaration itself
+	Body     *ast.BlockStmt
+	Sig      *types.Signature
+	CFG      *cfg.CFG
+	Info     *types.Info
+	FR       map[*cfg.Block]bool // failure region
+	Exits    []*Exit
+	Atoms    []*Atom
+	idom     []int // immediate dominators (by block index), -1 for entry/unreachable
+	preds    map[*cfg.Block][]*cfg.Block
+	rdIn     map[*cfg.Block]defSet
+	nodeBlk  map[ast.Node]*cfg.Block
+	prog     *Program
+	eng      *GuardEngine
 }
 
 type Exit struct {
@@ -817,6 +820,11 @@ func (u *Unit) shapeOf(e ast.Expr) string {
 			if o.Pkg() != nil && o.Parent() == o.Pkg().Scope() {
 				return o.Pkg().Name() + "." + o.Name()
 			}
+			if u.leafMode {
+				if ps := u.paramShape(o); ps != "" && !strings.HasPrefix(ps, "$lit") {
+					return "⟦" + ps + "|<" + shortType(o.Type()) + ">⟧"
+				}
+			}
 			return "<" + shortType(o.Type()) + ">"
 		case *types.Const:
 			return o.Name()
@@ -856,7 +864,14 @@ func (u *Unit) shapeOf(e ast.Expr) string {
 	case *ast.StarExpr:
 		return "*" + u.shapeOf(x.X)
 	case *ast.IndexExpr:
-		return u.shapeOf(x.X) + "[]"
+		base := u.shapeOf(x.X)
+		// an element of a local container is rendered like a range value over it: by its type
+		if strings.HasPrefix(base, "<") && strings.HasSuffix(base, ">") && strings.Count(base, "<") == 1 {
+			if t := u.Info.TypeOf(x); t != nil {
+				return "<" + shortType(t) + ">"
+			}
+		}
+		return base + "[]"
 	case *ast.SliceExpr:
 		return u.shapeOf(x.X) + "[:]"
 	case *ast.TypeAssertExpr:
@@ -921,13 +936,21 @@ func (u *Unit) extractAtoms(g *GuardEngine) {
 			}
 			sort.Strings(a.Callees)
 			a.Shape = u.leafShape(lf.expr, lf.failTrue)
+			u.leafMode = true
+			a.ShapeP = u.leafShape(lf.expr, lf.failTrue)
+			u.leafMode = false
 			if len(lf.conj) > 0 {
-				cs := []string{}
+				cs, csp := []string{}, []string{}
 				for _, c := range lf.conj {
 					cs = append(cs, u.leafShape(c, lf.failTrue))
+					u.leafMode = true
+					csp = append(csp, u.leafShape(c, lf.failTrue))
+					u.leafMode = false
 				}
 				sort.Strings(cs)
+				sort.Strings(csp)
 				a.Conj = "&&(" + strings.Join(cs, ",") + ")"
+				a.ConjP = "&&(" + strings.Join(csp, ",") + ")"
 			}
 			u.Atoms = append(u.Atoms, a)
 		}
@@ -1037,6 +1060,9 @@ func (u *Unit) extractAtoms(g *GuardEngine) {
 			}
 			sort.Strings(a.Callees)
 			a.Shape = u.leafShape(lf.expr, lf.failTrue)
+			u.leafMode = true
+			a.ShapeP = u.leafShape(lf.expr, lf.failTrue)
+			u.leafMode = false
 			u.Atoms = append(u.Atoms, a)
 		}
 		return true
@@ -1275,6 +1301,17 @@ func (g *GuardEngine) flatAtoms(fd *FuncDecl, onPath map[*FuncDecl]bool, depth i
 				cp.Outer = a
 				// operands that are parameters of the helper are the call-site arguments
 				cp.Substs = append(append([]paramSubst{}, ha.Substs...), newParamSubst(a.Unit, c))
+				// the same for the tested expression itself: `rows <= 0` in a helper called with dto.Rows is `.Rows<=0`
+				if strings.Contains(ha.ShapeP, "⟦") || strings.Contains(ha.ConjP, "⟦") {
+					ls := newLeafSubst(a.Unit, c)
+					cp.ShapeP = ls.applyLeaf(ha.ShapeP)
+					cp.ConjP = ls.applyLeaf(ha.ConjP)
+					cp.Shape = finalizeLeaf(cp.ShapeP)
+					cp.Conj = finalizeLeaf(cp.ConjP)
+					if strings.Contains(cp.Shape, "<error>") && strings.Contains(cp.Shape, "nil") {
+						cp.Shape = "err"
+					}
+				}
 				if !a.Must {
 					if cc := a.Unit.condContext(c); cc != "" {
 						if cp.CtxOuter != "" {
@@ -1420,6 +1457,48 @@ func newParamSubst(u *Unit, c *ast.CallExpr) paramSubst {
 		}
 	}
 	return ps
+}
+
+// newLeafSubst maps the helper's parameters to the call-site arguments rendered like leaf operands.
+func newLeafSubst(u *Unit, c *ast.CallExpr) paramSubst {
+	ps := paramSubst{}
+	u.leafMode = true
+	defer func() { u.leafMode = false }()
+	for i, a := range c.Args {
+		if i > 9 {
+			break
+		}
+		ps["$"+itoa(i)] = u.condOperand(a)
+	}
+	if sel, ok := ast.Unparen(c.Fun).(*ast.SelectorExpr); ok {
+		if f, ok := typeutil.Callee(u.Info, c).(*types.Func); ok && f.Type().(*types.Signature).Recv() != nil {
+			ps["$recv"] = u.condOperand(sel.X)
+		}
+	}
+	return ps
+}
+
+var leafTokenRe = regexp.MustCompile(`⟦(\$(?:recv|\d))\|([^⟧]*)⟧`)
+
+func (ps paramSubst) applyLeaf(s string) string {
+	if !strings.Contains(s, "⟦") {
+		return s
+	}
+	return leafTokenRe.ReplaceAllStringFunc(s, func(tok string) string {
+		m := leafTokenRe.FindStringSubmatch(tok)
+		if v, ok := ps[m[1]]; ok && v != "" {
+			return v
+		}
+		return tok
+	})
+}
+
+// finalizeLeaf: parameters of the function whose inventory this is are rendered by their type.
+func finalizeLeaf(s string) string {
+	if !strings.Contains(s, "⟦") {
+		return s
+	}
+	return leafTokenRe.ReplaceAllString(s, "$2")
 }
 
 var paramTokenRe = regexp.MustCompile(`\$(recv|lit\d|\d)`)
